@@ -746,7 +746,11 @@ func (db *DB) searchAll(o Object, field, operator string, value interface{}, con
 	if constrain != nil {
 		uuids := make([]string, 0, len(constrain))
 		for _, c := range constrain {
-			uuids = append(uuids, s.ObjectIndex.ObjectIds[c.ObjectId])
+			// an object deleted since the previous search is left out, as
+			// it is when the field is indexed (Constrain ignores unknown ids)
+			if uuid, ok := s.ObjectIndex.ObjectIds[c.ObjectId]; ok {
+				uuids = append(uuids, uuid)
+			}
 		}
 		iter = newIterator(db, o, uuids)
 	} else if iter, err = db.iterator(o); err != nil {
